@@ -76,20 +76,26 @@ theorem cond_iff_len (st et : RTy) (start stop step : Int) (hs : step ≠ 0) :
     simp only [Skel.cond, hc, decide_eq_false_iff_not, decide_eq_true_eq, gt_iff_lt]
     exact ⟨a, b⟩
 
-theorem emit_step (st et : RTy) (step : Int) : (emit st et step).step = step := by
+theorem emit_step (st et : RTy) (step : Int) (hok : StepLitOk st et step = true) : (emit st et step).step = step := by
+  unfold StepLitOk at hok
   unfold Skel.step emit
   simp only
   split
   · rfl
-  · omega
+  · rename_i h
+    simp only [h, Bool.false_eq_true, if_false] at hok
+    have : 2 * step / 2 = step := by omega
+    rw [this]
+    exact wrap_of_fits _ _ hok
 
 theorem emit_idx (st et : RTy) (step : Int) : (emit st et step).idx = indexType st et := rfl
 
 /-- one exact step of the emitted loop -/
-theorem emit_next (st et : RTy) (step i : Int) (h : (indexType st et).fits (i + step) = true) :
+theorem emit_next (st et : RTy) (step i : Int) (hok : StepLitOk st et step = true)
+    (h : (indexType st et).fits (i + step) = true) :
     (emit st et step).next i = i + step := by
   unfold Skel.next
-  rw [emit_step]
+  rw [emit_step st et step hok]
   cases (emit st et step).add with
   | taggedAdd => rfl
   | intOp => simp only [emit_idx]; exact wrap_of_fits _ _ h
